@@ -1,11 +1,276 @@
 import SigModel.Driver.Loop
+import SigModel.Spec.ShapesFederation
 
-/-! Driver for C12 — stub (no model yet). -/
+/-! Driver for C12: parses the op lines of harness/signaling/zz_verif_c12_*.go
+(the decoded shape of every hostile document travels with the op), runs the
+model of the federation client and renders its effects in the harness's
+canonical form; judges the implementation's observation with the spec. -/
 namespace SigModel.Driver.C12
+open SigModel.Proto SigModel.ShapesFederation
+
+abbrev P (α : Type) := List String → Option (α × List String)
+
+/-- Bytes to a string the way Go's `utf8.DecodeRune` walks them: every byte that does not start a
+well-formed sequence becomes U+FFFD (easyjson keeps invalid bytes in decoded strings and writes
+them as `\ufffd`; strings that differ only in their invalid bytes are therefore conflated here). -/
+partial def lossyUTF8 : List UInt8 → List Char
+  | [] => []
+  | b :: r =>
+    let n := b.toNat
+    let cont (x : UInt8) : Bool := 0x80 ≤ x.toNat && x.toNat ≤ 0xBF
+    if n < 0x80 then Char.ofNat n :: lossyUTF8 r
+    else
+      match r with
+      | b1 :: r1 =>
+        if 0xC2 ≤ n && n ≤ 0xDF && cont b1 then
+          Char.ofNat ((n - 0xC0) * 64 + (b1.toNat - 0x80)) :: lossyUTF8 r1
+        else
+          match r1 with
+          | b2 :: r2 =>
+            let lo3 := if n = 0xE0 then 0xA0 else 0x80
+            let hi3 := if n = 0xED then 0x9F else 0xBF
+            if 0xE0 ≤ n && n ≤ 0xEF && lo3 ≤ b1.toNat && b1.toNat ≤ hi3 && cont b2 then
+              Char.ofNat ((n - 0xE0) * 4096 + (b1.toNat - 0x80) * 64 + (b2.toNat - 0x80)) :: lossyUTF8 r2
+            else
+              match r2 with
+              | b3 :: r3 =>
+                let lo4 := if n = 0xF0 then 0x90 else 0x80
+                let hi4 := if n = 0xF4 then 0x8F else 0xBF
+                if 0xF0 ≤ n && n ≤ 0xF4 && lo4 ≤ b1.toNat && b1.toNat ≤ hi4 && cont b2 && cont b3 then
+                  Char.ofNat ((n - 0xF0) * 262144 + (b1.toNat - 0x80) * 4096 + (b2.toNat - 0x80) * 64 + (b3.toNat - 0x80))
+                    :: lossyUTF8 r3
+                else Char.ofNat 0xFFFD :: lossyUTF8 r
+              | [] => Char.ofNat 0xFFFD :: lossyUTF8 r
+          | [] => Char.ofNat 0xFFFD :: lossyUTF8 r
+      | [] => [Char.ofNat 0xFFFD]
+
+def pStr : P String
+  | t :: r =>
+    match dec t with
+    | some s => some (s, r)
+    | none => (decBytes t).map fun bs => (String.ofList (lossyUTF8 bs), r)
+  | [] => none
+
+def pBool : P Bool
+  | "1" :: r => some (true, r)
+  | "0" :: r => some (false, r)
+  | _ => none
+
+def pNat : P Nat
+  | t :: r => (toNat? t).map (·, r)
+  | [] => none
+
+def pOptStr : P (Option String)
+  | "-" :: r => some (none, r)
+  | "+" :: r => (pStr r).map fun (s, r) => (some s, r)
+  | _ => none
+
+def pMany {α : Type} (p : P α) : Nat → P (List α)
+  | 0, r => some ([], r)
+  | n + 1, r => do
+    let (x, r) ← p r
+    let (xs, r) ← pMany p n r
+    some (x :: xs, r)
+
+def pList {α : Type} (p : P α) : P (List α) := fun r => do
+  let (n, r) ← pNat r
+  pMany p n r
+
+def pEntry : P MapEntry
+  | "e" :: r => do
+    let (u, r) ← pOptStr r
+    let (l, r) ← pOptStr r
+    some ({ sidU := u, sidL := l }, r)
+  | _ => none
+
+def pRoomEv : P (Option RoomEv)
+  | "-" :: r => some (none, r)
+  | "U" :: r => do
+    let (roomId, r) ← pStr r
+    let (users, r) ← pList pEntry r
+    let (changed, r) ← pList pEntry r
+    some (some { roomId, users, changed }, r)
+  | _ => none
+
+def pJoin : P (Option Entry)
+  | "-" :: r => some (none, r)
+  | "J" :: r => (pStr r).map fun (s, r) => (some { sessionId := s }, r)
+  | _ => none
+
+def pParty : P (Option Party)
+  | "-" :: r => some (none, r)
+  | "P" :: r => do
+    let (t, r) ← pStr r
+    let (s, r) ← pStr r
+    some (some { type := t, sessionId := s }, r)
+  | _ => none
+
+def pTok : P String
+  | t :: r => some (t, r)
+  | [] => none
+
+def pBody : P (Option Body)
+  | "-" :: r => some (none, r)
+  | "B" :: r => do
+    let (sender, r) ← pParty r
+    let (recipient, r) ← pParty r
+    let (dataEmpty, r) ← pBool r
+    let (aoOk, r) ← pBool r
+    let (aoType, r) ← pStr r
+    let (aoFrom, r) ← pStr r
+    let (aoTo, r) ← pStr r
+    let (nick, r) ← pBool r
+    let (fmOk, r) ← pBool r
+    let (fmPeer, r) ← pOptStr r
+    let (origA, r) ← pTok r
+    let (origB, r) ← pTok r
+    some (some { sender, recipient, dataEmpty, aoOk, aoType, aoFrom, aoTo, nick, fmOk, fmPeer, origA, origB }, r)
+  | _ => none
+
+def pEvent : P (Option Event)
+  | "-" :: r => some (none, r)
+  | "V" :: r => do
+    let (target, r) ← pStr r
+    let (type, r) ← pStr r
+    let (join, r) ← pList pJoin r
+    let (leave, r) ← pList pStr r
+    let (changeHasNil, r) ← pBool r
+    let (switchTo, r) ← pBool r
+    let (resumed, r) ← pBool r
+    let (invite, r) ← pRoomEv r
+    let (disinvite, r) ← pRoomEv r
+    let (update, r) ← pRoomEv r
+    let (flags, r) ← (match r with
+      | "-" :: r => some (none, r)
+      | "F" :: r => do
+        let (a, r) ← pStr r
+        let (b, r) ← pStr r
+        some (some ({ roomId := a, sessionId := b } : FlagsEv), r)
+      | _ => none)
+    let (message, r) ← (match r with
+      | "-" :: r => some (none, r)
+      | "G" :: r => (pStr r).map fun (a, r) => (some ({ roomId := a } : MsgEv), r)
+      | _ => none)
+    some (some { target, type, join, leave, changeHasNil, switchTo, resumed, invite, disinvite, update, flags, message }, r)
+  | _ => none
+
+def pErr : P (Option Err)
+  | "-" :: r => some (none, r)
+  | "E" :: r => do
+    let (code, r) ← pStr r
+    let (detailsEmpty, r) ← pBool r
+    let (detRoom, r) ← pOptStr r
+    let (origDroom, r) ← pTok r
+    some (some { code, detailsEmpty, detRoom, origDroom }, r)
+  | _ => none
+
+def pDec : P Dec
+  | "X" :: r => some (.undecodable, r)
+  | "M" :: r => do
+    let (id, r) ← pStr r
+    let (type, r) ← pStr r
+    let (error, r) ← pErr r
+    let (welcome, r) ← (match r with
+      | "-" :: r => some (none, r)
+      | "W" :: r => (pList pStr r).map fun (fs, r) => (some ({ features := fs } : Welcome), r)
+      | _ => none)
+    let (hello, r) ← (match r with
+      | "-" :: r => some (none, r)
+      | "H" :: r => do
+        let (a, r) ← pStr r
+        let (b, r) ← pStr r
+        some (some ({ sessionId := a, resumeId := b } : Hello), r)
+      | _ => none)
+    let (bye, r) ← pBool r
+    let (room, r) ← (match r with
+      | "-" :: r => some (none, r)
+      | "R" :: r => (pStr r).map fun (a, r) => (some ({ roomId := a } : RoomM), r)
+      | _ => none)
+    let (message, r) ← pBody r
+    let (control, r) ← pBody r
+    let (event, r) ← pEvent r
+    let (transient, r) ← pBool r
+    let (internal, r) ← pBool r
+    let (dialout, r) ← pBool r
+    some (.msg { id, type, error, welcome, hello, bye, room, message, control, event, transient, internal, dialout }, r)
+  | _ => none
+
+def optOf (key : String) (toks : List String) : Option String :=
+  (toks.find? (fun t => hasPrefix (key ++ "=") t)).map (dropS (key.length + 1))
+
+def parseOp : List String → Option Op
+  | "start" :: r => some (.start (optOf "rid" r == some "1") (optOf "hide" r == some "1") (optOf "feat" r != some "0"))
+  | "peer" :: _ :: r => (pDec r).map fun (d, _) => .peer d false
+  | "peerwf" :: _ :: r => (pDec r).map fun (d, _) => .peer d true
+  | ["bin", _] => some .bin
+  | ["big", n] => (toNat? n).map .big
+  | ["drop", _] => some .drop
+  | ["local", "leave"] => some .localLeave
+  | ["local", "msg"] => some .localMsg
+  | ["probe"] => some .probe
+  | ["expire"] => some .expire
+  | _ => none
+
+def joinBar (xs : List String) : String := if xs.isEmpty then "-" else joinWith "|" xs
+
+/-- The canonical observation line for the effects of one step. -/
+def render (op : Op) (st : Fed) (c : Ctx) : String :=
+  match c.fault with
+  | some (.crash site) => "crash:" ++ site
+  | some (.deadlock l) => "deadlock:" ++ l
+  | none =>
+    match op with
+    | .probe => "alive"
+    | .expire => "expired"
+    | _ =>
+      let needsConn := match op with
+        | .peer _ _ => true
+        | .bin => true
+        | .big _ => true
+        | .drop => true
+        | _ => false
+      if needsConn && !st.connOpen then "no-conn"
+      else
+        let blind := match op with
+          | .peer _ wf => wf
+          | .drop => true
+          | _ => false
+        let pre := match op with
+          | .start .. => ["connected"]
+          | .peer _ true => ["wfault"]
+          | .drop => ["dropped"]
+          | _ => []
+        let ls := c.effs.filterMap fun e =>
+          match e with
+          | .toLocal _ m => some m
+          | .sessionClosed => some "closed"
+          | _ => none
+        let ps := c.effs.filterMap fun e =>
+          match e with
+          | .toPeer m => some m
+          | .connClosed => if blind then none else some "closed"
+          | .reconnected => some "reconnect"
+          | _ => none
+        "L:" ++ joinBar ls ++ " P:" ++ joinBar (pre ++ ps) ++ " B:0"
 
 structure St where
-  dummy : Unit := ()
+  fed : Fed := {}
 
-def step (st : St) (_op _impl : List String) : St × String × String := (st, "bad-op", "na")
+def step (st : St) (op impl : List String) : St × String × String :=
+  let kind := op.headD ""
+  let v := judge kind impl
+  match parseOp op with
+  | none => (st, "bad-op", v)
+  | some o =>
+    let started := match o with
+      | .start .. => true
+      | _ => st.fed.started
+    let restart := match o with
+      | .start .. => st.fed.started
+      | _ => false
+    if !started || restart then (st, "bad-op", v)
+    else
+      let c := SigModel.ShapesFederation.step generatedFacts st.fed o
+      ({ fed := c.st }, render o st.fed c, v)
 
 end SigModel.Driver.C12
